@@ -79,6 +79,14 @@ func families() []fam {
 	// the shape of the storage-routing residual: q*dt + k*q^m + dead - S, with a max(0,.) kink
 	add("routing-residual(m=0.8)", 0, 50, true, func(q float64) float64 { return q*86400 + 86400*math.Pow(q, 0.8) - 1e6 })
 	add("routing-residual(m=0.6,dead)", 0, 20, true, func(q float64) float64 { return q*86400 + 172800*math.Pow(q, 0.6) + math.Max(0, q-5)*1e4 - 4e5 })
+	// strongly convex / concave monotone functions on which a secant iteration keeps one bracket end (stalls)
+	for _, pw := range []float64{4, 8} {
+		for _, c := range []float64{0.01, 0.3} {
+			pw, c := pw, c
+			add(fmt.Sprintf("power(x^%g-%g)", pw, c), 0, 1, true, func(x float64) float64 { return math.Pow(x, pw) - c })
+			add(fmt.Sprintf("power-mirrored(%g-(1-x)^%g)", c, pw), 0, 1, true, func(x float64) float64 { return c - math.Pow(1-x, pw) })
+		}
+	}
 	// non-monotone with a bracketed sign change
 	add("three-roots", -1, 1, false, func(x float64) float64 { return (x + 0.8) * (x - 0.1) * (x - 0.7) })
 	add("damped-sine", 0, 3, false, func(x float64) float64 { return math.Exp(-x)*math.Sin(5*x) + 0.05*(x-1.5) })
@@ -86,11 +94,11 @@ func families() []fam {
 }
 
 var (
-	derivKinds = []string{"exact", "nil", "zero", "wrong-sign"}
+	derivKinds = []string{"exact", "nil", "zero", "wrong-sign", "slope-bound", "half-slope", "constant-1"}
 	guesses    = []float64{0, 0.25, 0.5, 1}
 	tols       = []float64{1e-3, 1e-6, 1e-9}
 	convs      = []float64{1e-8, 1e-12}
-	budgets    = []int{1, 2, 3, 4, 5, 6, 7, 8, 10, 12, 20, 60}
+	budgets    = []int{1, 2, 3, 4, 5, 6, 7, 8, 10, 12, 15, 20, 25, 30, 40, 60}
 )
 
 type rootCase struct {
@@ -143,6 +151,17 @@ func runRoot(rc rootCase, r *vf.Rec) {
 		dfn = func(float64) float64 { return 0 }
 	case "wrong-sign":
 		dfn = func(x float64) float64 { return -exact(x) }
+	case "slope-bound": // a conservative constant (a Lipschitz bound) instead of the derivative
+		L, ok := lipCache[f.name]
+		if !ok {
+			L = lipschitz(f)
+			lipCache[f.name] = L
+		}
+		dfn = func(float64) float64 { return L }
+	case "half-slope":
+		dfn = func(x float64) float64 { return 0.5 * exact(x) }
+	case "constant-1":
+		dfn = func(float64) float64 { return 1 }
 	}
 	x0 := f.min + rc.guess*(f.max-f.min)
 	d := map[string]interface{}{"function": f.name, "interval": []float64{f.min, f.max}, "derivative": rc.deriv, "initial_guess": x0, "tolerance": rc.tol, "convergence_limit": rc.conv, "max_iterations": rc.budget}
@@ -358,6 +377,91 @@ func runPw(t pwTable, r *vf.Rec) {
 	r.MarkNontrivial()
 }
 
+// runPwPair: a lookup must not depend on earlier lookups. For the ordered pair of knot vectors (A, B): every admissible
+// lookup in A followed by every lookup in B (B a different array object, and B written into A's array object in
+// place); the second result is compared with the interpolant computed here from B alone.
+func runPwPair(xa, xb []float64, r *vf.Rec) {
+	ysFor := func(xs []float64, variant int) []float64 {
+		ys := make([]float64, len(xs))
+		for i := range ys {
+			if variant == 0 {
+				ys[i] = 100 * float64(i)
+			} else {
+				ys[i] = float64((i*7)%5) - 1.5
+			}
+		}
+		return ys
+	}
+	queries := func(xs []float64) []float64 {
+		var q []float64
+		for k := range xs {
+			q = append(q, xs[k])
+			if k+1 < len(xs) {
+				q = append(q, xs[k]+(xs[k+1]-xs[k])/2, xs[k]+(xs[k+1]-xs[k])/8)
+			}
+		}
+		return q
+	}
+	want := func(x float64, xs, ys []float64) float64 {
+		if x == xs[0] {
+			return ys[0]
+		}
+		for k := 0; k+1 < len(xs); k++ {
+			if x > xs[k] && x <= xs[k+1] {
+				if x == xs[k+1] {
+					return ys[k+1]
+				}
+				return ys[k] + (x-xs[k])/(xs[k+1]-xs[k])*(ys[k+1]-ys[k])
+			}
+		}
+		return math.NaN()
+	}
+	for variant := 0; variant < 2; variant++ {
+		ya, yb := ysFor(xa, variant), ysFor(xb, variant)
+		for _, inPlace := range []bool{false, true} {
+			if inPlace && len(xa) != len(xb) {
+				continue
+			}
+			for _, qa := range queries(xa) {
+				for _, qb := range queries(xb) {
+					axs, ays := arr1(xa), arr1(ya)
+					if _, err := fn.Piecewise(qa, axs, ays); err != nil {
+						r.Failf("C18/Piecewise/error-inside-table", map[string]interface{}{"xs": xa, "x": qa, "error": fmt.Sprint(err)}, "Piecewise(%v) on xs=%v: %v", qa, xa, err)
+						return
+					}
+					bxs, bys := arr1(xb), arr1(yb)
+					how := "another-table"
+					if inPlace {
+						how = "same-array-rewritten-in-place"
+						for i := range xb {
+							axs.Set1(i, xb[i])
+							ays.Set1(i, yb[i])
+						}
+						bxs, bys = axs, ays
+					}
+					y, err := fn.Piecewise(qb, bxs, bys)
+					r.Count("piecewise_second_lookups", 1)
+					w := want(qb, xb, yb)
+					if err != nil || math.Abs(y-w) > 1e-12*math.Max(1, math.Abs(w)) {
+						r.Failf("C18/Piecewise/lookup-depends-on-the-previous-lookup/"+how, map[string]interface{}{"first_xs": xa, "first_x": qa, "xs": xb, "ys": yb, "x": qb, "y": y, "want": w, "error": fmt.Sprint(err)},
+							"after Piecewise(%v) on xs=%v, Piecewise(%v) on xs=%v ys=%v returned %v (err %v), the interpolant is %v", qa, xa, qb, xb, yb, y, err, w)
+						return
+					}
+				}
+			}
+		}
+	}
+	r.MarkNontrivial()
+}
+
+func (p *pwIndex) knots(k int) []float64 {
+	var xs []float64
+	for _, ki := range p.subsets[k] {
+		xs = append(xs, knotPool[ki])
+	}
+	return xs
+}
+
 // ---------------------------------------------------------------------------------------------
 
 // longTables: tables longer than the exhaustive pool allows (any length >= 2 is in the statement): uniform and
@@ -392,7 +496,8 @@ type enum struct {
 	long  []pwTable
 }
 
-func (e *enum) N() int64 { return e.nRoot + e.pw.n() + int64(len(e.long)) }
+func (e *enum) nPairs() int64 { return int64(len(e.pw.subsets)) * int64(len(e.pw.subsets)) }
+func (e *enum) N() int64      { return e.nRoot + e.pw.n() + int64(len(e.long)) + e.nPairs() }
 func (e *enum) Run(i int64, r *vf.Rec) {
 	if i < e.nRoot {
 		r.Count("cases/FindRoot", 1)
@@ -404,8 +509,15 @@ func (e *enum) Run(i int64, r *vf.Rec) {
 		runPw(e.pw.table(i-e.nRoot), r)
 		return
 	}
-	r.Count("cases/Piecewise-long-tables", 1)
-	runPw(e.long[i-e.nRoot-e.pw.n()], r)
+	if j := i - e.nRoot - e.pw.n(); j < int64(len(e.long)) {
+		r.Count("cases/Piecewise-long-tables", 1)
+		runPw(e.long[j], r)
+		return
+	}
+	j := i - e.nRoot - e.pw.n() - int64(len(e.long))
+	ns := int64(len(e.pw.subsets))
+	r.Count("cases/Piecewise-ordered-table-pairs", 1)
+	runPwPair(e.pw.knots(int(j/ns)), e.pw.knots(int(j%ns)), r)
 }
 func (e *enum) Describe(i int64) interface{} {
 	if i < e.nRoot {
@@ -415,8 +527,12 @@ func (e *enum) Describe(i int64) interface{} {
 	var t pwTable
 	if i < e.nRoot+e.pw.n() {
 		t = e.pw.table(i - e.nRoot)
+	} else if j := i - e.nRoot - e.pw.n(); j < int64(len(e.long)) {
+		t = e.long[j]
 	} else {
-		t = e.long[i-e.nRoot-e.pw.n()]
+		j -= int64(len(e.long))
+		ns := int64(len(e.pw.subsets))
+		return map[string]interface{}{"function": "Piecewise, two lookups in a row", "first_xs": e.pw.knots(int(j / ns)), "second_xs": e.pw.knots(int(j % ns))}
 	}
 	return map[string]interface{}{"function": "Piecewise", "xs": t.xs, "ys": t.ys}
 }
@@ -427,8 +543,8 @@ func (e *enum) CrashSig(i int64, tail string) (string, string) {
 func Spec() *vf.Check {
 	return &vf.Check{
 		ID: "C18", Level: "exploration", BlockSize: 512,
-		Rule: "FindRoot: 49 functions on an interval (linear, cubic, saturating exponential, piecewise-linear with flat segments and kinks, steep ramp, routing-residual shapes, antisymmetric end values, flat-then-steep / steep-then-flat kinks with the root near an end; non-monotone: three roots, damped sine) x derivative {exact,nil,zero,wrong sign} x initial guess {min,1/4,1/2,max} x tolerance {1e-3,1e-6,1e-9} x convergence limit {1e-8,1e-12} x budget {1..8,10,12,20,60}; every evaluation point logged. " +
-			"Piecewise: every strictly increasing knot vector of length 2..4 (quick) / 2..5 (thorough) from {-2,0,0.1,0.3,0.7,1,10} x every y assignment from {-1,0,0.1,0.3,0.7,5} x queries at every knot, mid/quarter points, the floats adjacent to each knot, below, above, NaN, +-Inf x {contiguous, column view, stepped view} tables. distinct_nontrivial = cases that passed all clauses.",
+		Rule: "FindRoot: 57 functions on an interval (linear, cubic, x^p-c and its mirror image (secant iterations stall), saturating exponential, piecewise-linear with flat segments and kinks, steep ramp, routing-residual shapes, antisymmetric end values, flat-then-steep / steep-then-flat kinks with the root near an end; non-monotone: three roots, damped sine) x derivative {exact,nil,zero,wrong sign,constant slope bound,half the slope,constant 1} x initial guess {min,1/4,1/2,max} x tolerance {1e-3,1e-6,1e-9} x convergence limit {1e-8,1e-12} x budget {1..8,10,12,15,20,25,30,40,60}; every evaluation point logged. " +
+			"Piecewise: every strictly increasing knot vector of length 2..4 (quick) / 2..5 (thorough) from {-2,0,0.1,0.3,0.7,1,10} x every y assignment from {-1,0,0.1,0.3,0.7,5} x queries at every knot, mid/quarter points, the floats adjacent to each knot, below, above, NaN, +-Inf x {contiguous, column view, stepped view} tables; and every ORDERED pair of knot vectors: every lookup in the first followed by every lookup in the second (another array, and the same array rewritten in place), second result against the interpolant. distinct_nontrivial = cases that passed all clauses.",
 		Assumptions: []string{"'budget suffices for interval halving' is taken as: slope bound x (max-min)/2^budget < tolerance/2 and slope bound x 2 x convergenceLimit < tolerance/2 (sound for any bracketing method that includes the midpoint every iteration and may stop once the bracket is narrower than twice the convergence limit)", "lattice values only"},
 		Build: func(tier string) vf.Enumeration {
 			maxN := 4
